@@ -181,7 +181,15 @@ func runC05(t *testing.T, p *Plan) *Outcome {
 	if p.Profile == "actors" {
 		return runC05Actors(t, p)
 	}
+	return runConcCore(t, p, "C05")
+}
+
+// runConcCore runs the plan's commands concurrently (dice-scheduled at keyspace and store-lock granularity) and
+// compares with every serial order on fresh instances. ns is the property the verdict is reported under: "C05",
+// or "C13" for plans made of read-only commands only (which must in addition leave the dataset as it was).
+func runConcCore(t *testing.T, p *Plan, ns string) *Outcome {
 	o := &Outcome{}
+	var initData map[string]string
 	var conc c05Exec
 	var serials []c05Exec
 	var orders [][]int
@@ -216,9 +224,10 @@ func runC05(t *testing.T, p *Plan) *Outcome {
 		}
 		inst, cs := boot(1)
 		if inst == nil {
-			o.Sig, o.Detail = "C05/boot-failed", "instance construction failed"
+			o.Sig, o.Detail = ns+"/boot-failed", "instance construction failed"
 			return
 		}
+		initData = StripExpired(inst.DB.VerifDump(), nowMs(), false)
 		// ---- concurrent execution
 		conc.results = make([]string, len(p.Ops))
 		type opState struct {
@@ -399,6 +408,19 @@ func runC05(t *testing.T, p *Plan) *Outcome {
 	sort.Strings(names)
 	o.Class = strings.Join(names, "+")
 	o.Sample = map[string]any{"concurrent_replies": conc.results, "serial_orders": len(orders)}
+	if ns == "C13" {
+		final := stripExpiredMap(conc.data, nowMs())
+		if !mapsEqual(final, initData) {
+			o.Sig = "C13/readers-changed-data/" + names[0]
+			o.Detail = fmt.Sprintf("read-only commands %v run concurrently changed the dataset: %s", opsStrings(p.Ops), DiffData(final, initData, "after", "before", 4))
+			return o
+		}
+		if !matched && len(serials) > 0 {
+			o.Sig = "C13/reader-interference/" + o.Class
+			o.Detail = fmt.Sprintf("read-only commands %v run concurrently answered %v, which no serial order gives (e.g. %v answers %v)", opsStrings(p.Ops), conc.results, orders[0], serials[0].results)
+		}
+		return o
+	}
 	// ---- compare
 	if matched || len(serials) == 0 {
 		return o
